@@ -3,7 +3,9 @@
 Never run by a check. Every entry is re-validated at check time by the independent reference (pyref), so a wrong
 entry can only cause a visible failure of that validation, never a silent pass.
 
-usage: mk_corpus.py omega | chains | ct0 | seeds3 | all | vlong
+usage: mk_corpus.py omega | chains | ct0 | seeds3 | all | vlong | emptyrow | tvalue
+  emptyrow c03_empty_hint_row.json   specification-valid signatures with a hint-free polynomial, every set
+  tvalue  c04_t_value_seeds.json    key-generation seeds with a coefficient of t equal to 0 / q-1, every set
   vlong   c05_very_long_chains.json  (crafted key, message, expected signature) needing more than 1000 rejections
   omega   c03_exact_omega.json     specification-valid signatures with EXACTLY omega hints, every set (crate signer as the
                                    search engine, pyref.verify as the judge)
@@ -45,6 +47,45 @@ def omega_one(cp):
         out.append({"set": cp, "pk": pk.hex(), "msg": msg.hex(), "sig": sig.hex(), "key_seed": seed.hex()})
         if len(out) == 2:
             break
+    return out
+
+
+def empty_row_one(cp):
+    """specification-valid signatures in which one polynomial has no hint at all (about 3 in 10^6 signatures for the
+    gamma2=(q-1)/88 sets, 0.5 % for the others)"""
+    p = Par(cp)
+    rng = random.Random("emptyrow" + cp)
+    out = []
+    for attempt in range(60):
+        seed = bytes(rng.randrange(256) for _ in range(32))
+        r = crate([("hint_empty_row_search", cp, [seed, 400000 if p.g2 == 95232 else 4000])])[0]
+        idx, pk, sig = r
+        print(cp, "seed", attempt, "found", idx, flush=True)
+        if idx < 0:
+            continue
+        msg = int(idx).to_bytes(4, "little")
+        assert pyref.verify(p, pk, msg, sig), "crate signature with an empty hint row rejected by the reference"
+        out.append({"set": cp, "pk": pk.hex(), "msg": msg.hex(), "sig": sig.hex(), "key_seed": seed.hex()})
+        if len(out) == 2:
+            break
+    return out
+
+
+def tvalue_one(cp):
+    """key-generation seeds whose t = A*s1 + s2 has a coefficient exactly 0 (and exactly q-1): about 1 seed in 8000 / 1000"""
+    p = Par(cp)
+    rng = random.Random("tvalue" + cp)
+    out = []
+    for target in (0, 8380416):
+        got = 0
+        for attempt in range(20):
+            base = bytes(rng.randrange(256) for _ in range(32))
+            r = crate([("t_value_search", cp, [base, 40000, target])])[0]
+            print(cp, "target", target, "found", r[0], flush=True)
+            if r[0] >= 0:
+                out.append({"set": cp, "seed": r[1].hex(), "t_value": target}); got += 1
+            if got == 2:
+                break
     return out
 
 
@@ -164,6 +205,10 @@ def main():
             save("c03_exact_omega.json", [e for part in ex.map(omega_one, ALL) for e in part])
         if what in ("chains", "all"):
             save("c05_long_chains.json", [e for part in ex.map(chains_one, ALL) for e in part])
+        if what in ("emptyrow",):
+            save("c03_empty_hint_row.json", [e for part in ex.map(empty_row_one, ALL) for e in part])
+        if what in ("tvalue",):
+            save("c04_t_value_seeds.json", [e for part in ex.map(tvalue_one, ALL) for e in part])
         if what in ("vlong",):
             save("c05_very_long_chains.json", [e for part in ex.map(vlong_one, ALL) for e in part])
         if what in ("ct0", "all"):
